@@ -1,15 +1,3 @@
-//! C10–C14: field arithmetic, constants/encodings, FFT, polynomial helpers, batch utilities.
-
-use vcore::*;
-
-mod c10;
-mod c11;
-mod c12;
-mod c13;
-mod c14;
-
 fn main() {
-    vref::field::startup_selfcheck();
-    let props = vec![c10::prop(), c11::prop(), c12::prop(), c13::prop(), c14::prop()];
-    main_with(props);
+    vcore::main_with(vmath::props());
 }
